@@ -203,6 +203,14 @@ func init() {
 		}
 		return tuple{int64(0), false}
 	}
+	// vSchedule(): from now on, goroutines started by the code under test are run when the
+	// current goroutine blocks; a panic escaping one of them ends the path as a violation.
+	intrinsics["vSchedule"] = func(fr *frame, args []value) value {
+		fr.i.schedOn = true
+		fr.i.schedFrom = len(fr.i.spawned)
+		fr.i.nextGo = len(fr.i.spawned)
+		return nil
+	}
 	intrinsics["vPrint"] = func(fr *frame, args []value) value {
 		fmt.Fprintln(os.Stderr, "vPrint:", toString(args[0]))
 		return nil
